@@ -123,7 +123,15 @@ def check_property(pid: str, spec: dict, root: str, tier: str, seed: int,
         obs = run_rules(repo, spec["rules"])
         st = None
         if selftest is not None:
-            st = selftest(pid, spec, root, tier)
+            try:
+                st = selftest(pid, spec, root, tier)
+            except Exception as e_:
+                if not any(not o.ok for o in obs):
+                    raise
+                # the tree violates a rule: that is the verdict; trouble while running variants on top of a violating tree
+                # (they are only meaningful on a tree that passes) is reported, not enforced
+                print(f"NOTE property={pid} self-test could not run on this (violating) tree: {type(e_).__name__}: {str(e_)[:200]}")
+                st = {"failed": [], "note": f"not run: {type(e_).__name__}"}
             if st.get("failed"):
                 if any(not o.ok for o in obs):
                     # the tree itself violates a rule: the violation is the verdict; variants of a violating
